@@ -597,7 +597,7 @@ func colliderSDFStage(r *ev.Run, n int) {
 	shapes := ref.Shapes3(false)
 	var sel []ref.Shape3
 	for i, s := range shapes {
-		if _, ok := s.Obj.(model3d.Collider); ok && i%5 == 0 {
+		if _, ok := s.Obj.(model3d.Collider); ok && (i%5 == 0 || i%5 == 2) {
 			sel = append(sel, s)
 		}
 	}
@@ -617,6 +617,80 @@ func colliderSDFStage(r *ev.Run, n int) {
 					r.Violation("ColliderToSDF/distance", fmt.Sprintf("%s (iterations %d) at %v: SDF=%.10g, reference %.10g", s.Name, iters, p, got, want), sdfCase{s.Name, []float64{p.X, p.Y, p.Z}, "ColliderToSDF"})
 					break
 				}
+			}
+		}
+	})
+	// mesh colliders: the catalogue, and sparse slanted shapes whose bounding box is mostly empty - next to a box corner
+	// the surface can be farther away than the box is long, which a bracket derived from the box would not reach.
+	// Reference: exact minimum over the triangles, sign from the winding number. Queries: the point lattice and
+	// probes just outside each of the eight box corners and six face centres.
+	type meshShape struct {
+		name string
+		tris [][3]model3d.Coord3D
+	}
+	p3 := model3d.XYZ
+	var ms []meshShape
+	for _, nm := range cat.Closed3(true) {
+		if nm.Comps == 1 {
+			ms = append(ms, meshShape{nm.Name, nm.Tris})
+		}
+	}
+	ms = append(ms,
+		meshShape{"slanted-wedge", cat.Tetra(p3(1, 1, 1), p3(0, 0, 1), p3(0, 1, 0), p3(0.35, 0.7, 0.7))},
+		meshShape{"diagonal-needle", cat.Tetra(p3(0, 0, 0), p3(2, 2, 2), p3(0.06, 0, 0), p3(0, 0.06, 0))},
+		meshShape{"tilted-plate", cat.Tetra(p3(0, 0, 0), p3(3, 0, 1), p3(0, 3, 1), p3(1, 1, 0.72))})
+	ev.Parallel(len(ms), 16, func(mi int) {
+		m := model3d.NewMesh()
+		for _, t := range ms[mi].tris {
+			m.Add(&model3d.Triangle{t[0], t[1], t[2]})
+		}
+		tt := lat.Tris(m)
+		want := func(p model3d.Coord3D) float64 {
+			best := math.Inf(1)
+			for _, t := range ms[mi].tris {
+				if d, _ := triDist(p, t); d < best {
+					best = d
+				}
+			}
+			if math.Abs(math.Mod(math.Round(topo.Winding3(tt, p.Array())), 2)) == 1 {
+				return best
+			}
+			return -best
+		}
+		mn, mx := m.Min(), m.Max()
+		ext := mx.Dist(mn)
+		var qs []model3d.Coord3D
+		for i := 0; i < n; i++ {
+			for j := 0; j < n; j++ {
+				for k := 0; k < n; k++ {
+					f := func(t int) float64 { return float64(t)/float64(n-1)*1.6 - 0.3 }
+					qs = append(qs, mn.Add(mx.Sub(mn).Mul(p3(f(i)+0.0137, f(j)-0.0071, f(k)+0.0093))))
+				}
+			}
+		}
+		for c := 0; c < 8; c++ {
+			corner := p3(pickC(c&1, mn.X, mx.X), pickC(c>>1&1, mn.Y, mx.Y), pickC(c>>2&1, mn.Z, mx.Z))
+			out := corner.Sub(mn.Mid(mx)).Normalize()
+			for _, e := range []float64{1e-3, 0.01, 0.1, 0.3} {
+				qs = append(qs, corner.Add(out.Scale(e*ext)))
+				for ax := 0; ax < 3; ax++ {
+					var d [3]float64
+					d[ax] = out.Array()[ax] / math.Abs(out.Array()[ax]) * e * ext
+					qs = append(qs, corner.Add(p3(d[0], d[1], d[2]))) // just outside one face only, level with the corner
+				}
+			}
+		}
+		sdf := model3d.ColliderToSDF(model3d.MeshToCollider(m), 0)
+		for _, q := range qs {
+			w := want(q)
+			if math.Abs(w) < 1e-6*(1+ext) {
+				continue
+			}
+			r.Eval(1)
+			r.NontrivialAdd(1)
+			if got := sdf.SDF(q); !(math.Abs(got-w) <= 1e-6*(1+math.Abs(w)+ext)) {
+				r.Violation("ColliderToSDF/distance", fmt.Sprintf("mesh collider of %s at %v: SDF=%.10g, exact distance to the triangles %.10g", ms[mi].name, q, got, w), sdfCase{ms[mi].name, []float64{q.X, q.Y, q.Z}, "ColliderToSDF"})
+				return
 			}
 		}
 	})
@@ -646,6 +720,13 @@ func colliderSDFStage(r *ev.Run, n int) {
 			}
 		}
 	})
+}
+
+func pickC(b int, lo, hi float64) float64 {
+	if b == 0 {
+		return lo
+	}
+	return hi
 }
 
 // ---- segments: Dist/Closest (Euclidean) and L1Dist/ClosestL1, every lattice segment x every lattice query ----
